@@ -107,12 +107,13 @@ func Harness_C10_args() {
 	c10Check(np, 1, args, nil, false)
 }
 
-// Harness_C10_both_T: both matrices together, larger shapes (thorough).
+// Harness_C10_both_T: both matrices together (thorough): <=1 argument row and <=2 result rows of 2 entries each; the
+// larger single-matrix shapes are covered by Harness_C10_args / Harness_C10_rets.
 func Harness_C10_both_T() {
 	np := verifIntIn("params", 1, 3)
 	nr := verifIntIn("results", 0, 2)
-	args := c10Matrix("args", verifIntIn("arows", 0, 2), 2, -1, 3)
-	rets := c10Matrix("rets", verifIntIn("rrows", 0, 3), 2, -1, 2)
+	args := c10Matrix("args", verifIntIn("arows", 0, 1), 2, -1, 3)
+	rets := c10Matrix("rets", verifIntIn("rrows", 0, 2), 2, -1, 2)
 	c10Check(np, nr, args, rets, verifBool("external"))
 }
 
